@@ -63,6 +63,7 @@ from ..ir import (
     UnionField,
     UserDefined,
     Void,
+    unwrap,
     unwrap_aliases,
     unwrap_nullable,
 )
@@ -1618,6 +1619,15 @@ class IRGenerator:
                     data_type._ast_node.lineno,
                     data_type._ast_node.path,
                 )
+
+        for field in data_type.all_fields:
+            field_dt, _, _ = unwrap(field.data_type)
+            if not (is_union_type(field_dt) or
+                    (is_primitive_type(field_dt) and not is_void_type(field_dt))):
+                raise InvalidSpec(
+                    "Route attribute %s must have a primitive or union type." %
+                    quote(field.name),
+                    field._ast_node.lineno, field._ast_node.path)
 
         # TODO: are we always guaranteed at least one data type?
         # pylint: disable=undefined-loop-variable
